@@ -34,7 +34,7 @@ PipelineEv ==
           ELSE IF exp.k = "unspec" THEN bad
           ELSE IF exp.k = "error"
                THEN IF e.outcome = "ok" THEN Flag("accepted", [why |-> exp.why]) ELSE bad
-          ELSE IF e.outcome # "ok" THEN Flag("rejected", [stage |-> e.stage, kind |-> e.kind])
+          ELSE IF e.outcome # "ok" THEN (IF exp.mayReject THEN bad ELSE Flag("rejected", [stage |-> e.stage, kind |-> e.kind]))
           ELSE LET d == e.decoded
                    df == Diff(exp, ObsTx(d))
                    wf == WellFormedReason(d, net)
